@@ -904,16 +904,76 @@ def _left_null_model(cx, rep, port, p, mod, left, init):
     return verdict
 
 
+def _joiner_model(cx, port, p, mod, cls):
+    """get_rhs(key) of one joiner class run on an abstract join map whose lookup answers with 0, 1 or 2 matches:
+    {n: outcome} with outcome in 'matches' (the list the map returned, unchanged) / 'null' (what the constructor stored as null_record) /
+    'raise:runtime' / 'raise:other' / '?' ; plus whether every lookup used the key argument.  None when the method cannot be evaluated."""
+    from .. import absexec as AX
+    ms = roles.methods(cls)
+    g = ms.get('get_rhs')
+    if g is None:
+        return None
+    res, key_ok = {}, True
+    for n_ in (0, 1, 2):
+        selfv, jm, key = AX.Abs('Self'), AX.Abs('JoinMap'), AX.Abs('Key', distinct=True)
+        nullrec = [AX.Abs('NullRecord')]
+        matches = [AX.Abs('Match%d' % i) for i in range(n_)]
+        looked = []
+
+        def on_attr(ex, node, obj, attr):
+            if obj is selfv and attr == 'join_map':
+                return jm
+            if obj is selfv and attr == 'null_record':
+                return nullrec
+            return AX.NOT_HANDLED
+
+        def on_call(ex, node, fname, recv, args):
+            short = node.func.attr if isinstance(node.func, ast.Attribute) else fname
+            if recv is jm and short == 'get_join_records':
+                looked.append(len(args) == 1 and args[0] is key)
+                return matches
+            if isinstance(node.func, ast.Name) and node.func.id.endswith('Error'):
+                return AX.Abs('Exc', cls=node.func.id)
+            if short == 'format' and isinstance(recv, str):
+                return AX.Abs('Text')
+            return AX.NOT_HANDLED
+        ex = AX.Explorer(p, mod, on_call=on_call, on_attr=on_attr, max_choices=1)
+        try:
+            runs, cut = ex.explore(g, [selfv, key], cls=cls.name)
+        except (Undecided, KeyError, IndexError, TypeError, AttributeError):
+            return None
+        if cut or len(runs) != 1:
+            return None
+        kind, val, _node = runs[0].outcome
+        if not looked or not all(looked):
+            key_ok = False
+        if kind == 'raise':
+            res[n_] = 'raise:' + ('runtime' if isinstance(val, AX.Abs) and val.props.get('cls') == 'RbqlRuntimeError' else 'other')
+        elif val is matches:
+            res[n_] = 'matches' if len(matches) == n_ and all(isinstance(x, AX.Abs) and x.kind == 'Match%d' % i for i, x in enumerate(matches)) else '?'
+        elif val is nullrec:
+            res[n_] = 'null'
+        else:
+            res[n_] = '?'
+    return res, key_ok
+
+
 def rule_jn_joiners(cx, rep, port):
     p = cx.port(port)
     mod = cx.engine_mod(port)
     js = roles.joiners(p, mod)
     rep.require_count('joiner classes', len(js), 3, (p.files[mod], 0))
+    modelled = {}
     for c in js:
         ms = roles.methods(c)
         g = ms['get_rhs']
+        modelled[c.name] = _joiner_model(cx, port, p, mod, c)
+        if modelled[c.name] is not None and '?' not in modelled[c.name][0].values():
+            rep.decide(modelled[c.name][1], c.name + ' lookup', g, 'looks the key up in the join map (method evaluated on an abstract map with 0 / 1 / 2 matches)', '{}.get_rhs does not look up its key argument in the join map'.format(c.name))
+            continue
         calls = [x for x in walk_no_nested(g) if isinstance(x, ast.Call) and call_name(x) == 'self.join_map.get_join_records']
-        rep.decide(len(calls) == 1 and is_name(calls[0].args[0], g.args.args[1].arg), c.name + ' lookup', g, 'looks the key up in the join map', '{}.get_rhs does not look up its key argument in the join map'.format(c.name))
+        with rep.as_fallback('get_rhs is outside the abstract interpreter'):
+            rep.decide(len(calls) == 1 and is_name(calls[0].args[0], g.args.args[1].arg), c.name + ' lookup', g, 'looks the key up in the join map', '{}.get_rhs does not look up its key argument in the join map'.format(c.name))
     from .. import pathsem
     from ..snippet import inline_single_defs
     left = p.cls(mod, 'LeftJoiner')
@@ -987,8 +1047,13 @@ def rule_jn_joiners(cx, rep, port):
             ('StrictLeftJoiner', {0: {'raise:runtime'}, 1: {'matches'}, 2: {'raise:runtime'}}, '!= 1 match raises the runtime error', 'STRICT LEFT JOIN does not fail exactly when the number of matches differs from 1'),
             ('InnerJoiner', {0: {'matches'}, 1: {'matches'}, 2: {'matches'}}, 'returns the matches as they are', 'INNER JOIN post-processes its matches')):
         g = roles.methods(p.cls(mod, cname))['get_rhs']
-        oc = outcomes(g)
         key = cname if cname != 'LeftJoiner' else 'LeftJoiner empty'
+        mm = modelled.get(cname)
+        if mm is not None and '?' not in mm[0].values():
+            oc = {n_: {v} for n_, v in mm[0].items()}
+            rep.decide(oc == want, key, g, good + ' (method evaluated with 0 / 1 / 2 matches)', bad + ' (0 / 1 / 2 matches -> {})'.format([sorted(oc[n_]) for n_ in (0, 1, 2)]))
+            continue
+        oc = outcomes(g)
         if oc is None or any('?' in v for v in oc.values()):
             rep.undecided(key, g, 'what {}.get_rhs does for 0 / 1 / 2 matches is not recognised ({})'.format(cname, oc))
         else:
